@@ -336,7 +336,7 @@ def run(ctx):
     q = ctx.quick
     k = ctx.pick(2, 3)
     cap = ctx.pick(5, 12)
-    n8 = ctx.pick(5, 6)
+    n8 = ctx.pick(4, 6)
     full2 = not q
     fault_cap = ctx.pick(6, 40)
     fault_maxlen = ctx.pick(72, 400)
